@@ -16,8 +16,9 @@ PARTIAL = [
     "proved (through the span search, closed domain, what the ops cders32 / sders36 / tanc / tans / nrms run): A3.2 and A3.6 as coded on the span(s) find_span_linear returns; rational curves and surfaces with the default evaluator as coded (A3.2 / A3.6 on the homogeneous net, then A4.2 / A4.4) solve the Leibniz system of the true derivatives with positive weight polynomial; tangent of a non-rational curve / surface = (point, first derivative(s)), tangent of a rational CURVE = (A/w, quotient rule), normal of a non-rational 3-D surface = cross product of the TRUE first partial derivatives (streams tanc / tans / nrms, single and list variants); the values of every PKL entry A3.7 assigns (a37_as_coded_entry_values)",
     "proved (rational tangent / normal, what the ops tanc 1 / tans 1 / nrms 1 run: default evaluator as coded on the homogeneous net, A4.2 / A4.4, entries [0], [1] / [0][0], [1][0], [0][1]; span search, closed domain, positive weights): curve (rational_tangent_is_quotient_rule): point = A/w, vector = (A' w - A w')/w^2 with Mathlib's Polynomial.derivative, w(u) > 0; surface (tangent_rational_surface_on_domain, rational_surface_tangent_is_quotient_rule): W S = A, W S_u + W_u S = A_u, W S_v + W_v S = A_v and the quotient-rule forms with the partial derivatives in F[X][Y]; normal of a rational 3-D surface (normal_rational_surface_on_domain): the call succeeds and returns the cross product of these two rational tangent vectors, orthogonal to both; the quotient-rule values are the unique solution of the first two Leibniz equations and equal the derivative of the quotient polynomial whenever w divides A; over the reals (Mathlib HasDerivAt): x -> A(x)/w(x) has the value and derivative operations.tangent returns (rational_tangent_is_derivative_of_quotient_real), and S_u, S_v are the derivatives of the partial functions x -> A(x,v)/W(x,v), y -> A(u,y)/W(u,y) (rational_surface_tangents_are_partial_derivatives_of_quotient_real)",
     "proved (normalize=True; models tangentCurveN / tangentSurfaceN / normalSurfaceN = the un-normalised result followed by the model of vector_normalize, the magnitudes vector_magnitude returned being INPUTS; driver ops tancn / tansn / nrmsn compared with operations.tangent / normal(normalize=True) on unit-scale and small-scale (2^-10 .. 2^-26) shapes, rational and not, single and list calls, and on shapes with a vanishing tangent / normal (repeated first control point, pole)): for an EXACT root m (m*m = |v|^2): m > 0 -> the result exists, has squared length exactly 1 and is (1/m) v with 1/m > 0 (normalized_vector_is_unit_positive_multiple); m >= 0 -> the call is refused (ValueError, driver ERR) exactly for the zero vector (normalize_refuses_exactly_the_zero_vector); the three ops return the un-normalised point and these vectors, and are refused exactly when the first derivative / one of the two partials / the cross product vanishes (tangent_curve_normalized, tangent_surface_normalized, normal_surface_normalized and the ..._refused_iff_... theorems, for ANY derivative table); end to end for rational shapes: m n solves the Leibniz equation(s) of the true first derivative(s), the normalised normal is orthogonal to both rational tangents (normalized_tangent_rational_curve_on_domain, normalized_tangent_rational_surface_on_domain, normalized_normal_rational_surface_on_domain)",
-    "not proved: derivatives of order >= 2 of the quotient A/w are stated through the Leibniz system and its uniqueness only (the quotient-rule / HasDerivAt forms are for order 1, i.e. tangent and normal); the magnitude the implementation uses is the DOUBLE math.sqrt returns, which satisfies m*m = |v|^2 only up to rounding: with it the result is (1/m) v exactly (model = code, compared in exact arithmetic) but its squared length is 1 only up to that rounding (the driver ops answer BADMAG unless |m*m - |v|^2| <= 2^-49 |v|^2, the oracle checks the same bound); a vector so small that |v|^2 underflows in floating point is outside (exact mode has no underflow); A3.6 and A3.8 agree only on k + l <= order (the rest of the A3.8 table is zero)",
-    "tangent / normal: the floating-point sqrt and the 18-decimals rounding of vector_normalize are outside the theorems (the rounding is the identity on exact numbers; the oracle checks parallelism exactly and the length to relative 2^-49)",
+    "not proved: derivatives of order >= 2 of the quotient A/w are stated through the Leibniz system and its uniqueness only (the quotient-rule / HasDerivAt forms are for order 1, i.e. tangent and normal); the magnitude the implementation uses is the DOUBLE math.sqrt returns, which satisfies m*m = |v|^2 only up to rounding: with it the result is (1/m) v exactly (model = code, compared in exact arithmetic) but its squared length is 1 only up to that rounding (the driver ops answer BADMAG unless |m*m - |v|^2| <= 2^-49 |v|^2, the oracle checks the same bound); a vector so small that |v|^2 underflows is outside - ALSO in the exact mode of the harness, whose math.sqrt is the double square root: vector_magnitude([2^-600, 0]) returns 0 there and tangent(..., normalize=True) raises ValueError for a non-zero vector (driver: BADMAG for that magnitude); A3.6 and A3.8 agree only on k + l <= order (the rest of the A3.8 table is zero)",
+    "tangent / normal: the floating-point sqrt and the 18-decimals rounding of vector_normalize are outside the theorems (in the exact mode of the harness the '%.18f' formatting step is NOT EXERCISED: the exact number type ignores the format spec, so tancn / tansn / nrmsn compare the unrounded quotient - model = code there says nothing about the rounding step, and these kinds are not in FLOAT_KINDS; the oracle checks parallelism exactly and the length to relative 2^-49)",
+    'vanishing weight function (statement audit 5): the setters accept weights of mixed sign; where the weight function vanishes inside the domain derivatives / tangent / normal of the rational shape raise ZeroDivisionError - the rational ops (cders, sders, cders32, sders36, the R twins, tanc, tans, nrms, tancn, tansn, nrmsn) answer ERR when the evaluated weight is 0 (Drv.cWZero / sWZero); every rational theorem carries positive weights (hwt; added to normal_rational_surface_on_domain / normalized_normal_rational_surface_on_domain, where the proof does not need it); stream zero-weight',
 ]
 PARTIAL.append("proved (REPAIRED span search, F-01b; models curveDersR / curveDersA32R / surfaceDersR / surfaceDersA36R of Model/SpanRGrid.lean = the per-span tables curveDersAt / curveDersA32 / surfaceDersAt / surfaceDersA36 on the span(s) findSpanLinearR returns; ops cdersr / cders32r / sdersr / sders36r): on the whole closed domain of EVERY sorted knot vector with U_p < U_n per direction - the last domain span may be EMPTY - every entry of both curve evaluators is the iterated Polynomial.derivative of the span polynomial of the (legal, non-empty, parameter-containing) span found (curve_derivatives_repaired_on_domain, a32_as_coded_repaired_on_domain); at u = U_n that span is the last non-empty one, the curve coincides with its polynomial on [U_k, U_n), so the values are the LEFT-hand derivatives (curve_derivatives_repaired_at_domain_end); rational curves: positive weight polynomial and the Leibniz system for both evaluators (rational_curve_derivatives_repaired_leibniz); surfaces: tensor-formula table (tri for SurfaceEvaluator2) and A3.6 as coded = mixed partials of the bivariate span polynomial of the span pair found (surface_derivatives_repaired_on_domain), rational surfaces (rational_surface_derivatives_repaired_on_domain); under KnotsOk the R tables are the tables of the other theorems (derivatives_repaired_eq_derivatives); kernel-decided witness curve_derivatives_repaired_witness_F01b; correspondence: stream empty-last-span (kinds cdersr / cdersr-alt / cders32r / sdersr / sdersr-alt / sders36r, at U_n and inside, orders up to degree + 2, both evaluators, with the exact oracle = derivatives of the last non-empty span's polynomial) and the same ops on ordinary shapes (tag ordinary-r). NOT lifted to the repaired search: A3.7 + A3.8 as coded (surfaceDersA38 / op sders38 run on findSpanLinear; SurfaceEvaluator2 at U_n of an empty last span is tied to the triangular tensor table surfaceDersR by correspondence only), the tangent / normal / hodograph theorems and ops (tanc, tans, nrms, ...n: stated through findSpanLinear under KnotsOk / CurveWF, ERR on an empty found span), binsearch-selected derivatives (C17)")
 
@@ -304,6 +305,24 @@ def gen(rng, tier):
             G.count('tangent', kind + ('-list' if aslist else ''))
             out.append(Case(kind, "%s %s %s %s" % (kind, S.args(d), show_list(us), show_list(vs)), dict(shape=d, us=us, vs=vs, aslist=aslist)))
     out.extend(_norm_cases(rng, tier))
+    # malformed (statement audit 5, vanishing weight function): weights of mixed sign, parameter ON the zero set of the weight
+    # function: derivatives / tangent / normal of the rational shape divide by W = 0 (ZeroDivisionError), the ops answer ERR
+    # (Drv.cWZero / sWZero); both sides refuse, the oracle has nothing to judge
+    for _ in range(6 if tier == 'quick' else 40):
+        d, zero, _other = S.mixed_sign_shape(rng)
+        order = rng.randint(0, 2)
+        if d['kind'] == 'curve':
+            u = zero[0]
+            out.append(Case('cders', "cders %s %s %d" % (S.args(d), fr(u), order), dict(shape=d, u=u, order=order, alt=False), tags=('zero-weight',)))
+            out.append(Case('cders32', "cders32 %s %s %d" % (S.args(d), fr(u), order), dict(shape=d, u=u, order=order, alt=False), tags=('zero-weight',)))
+            out.append(Case('cdersr', "cdersr %s %s %d" % (S.args(d), fr(u), order), dict(shape=d, u=u, order=order, alt=False), tags=('zero-weight',)))
+            out.append(Case('tanc', "tanc %s %s" % (S.args(d), show_list([u])), dict(shape=d, us=[u], aslist=False), tags=('zero-weight',)))
+        else:
+            u, v = zero
+            out.append(Case('sders', "sders %s 0 %s %s %s %d" % ('1', S.args(d)[2:], fr(u), fr(v), order), dict(shape=d, u=u, v=v, order=order, alt=False), tags=('zero-weight',)))
+            out.append(Case('sders36', "sders36 %s %s %s %d" % (S.args(d), fr(u), fr(v), order), dict(shape=d, u=u, v=v, order=order, alt=False), tags=('zero-weight',)))
+            for kind in ('tans', 'nrms'):
+                out.append(Case(kind, "%s %s %s %s" % (kind, S.args(d), show_list([u]), show_list([v])), dict(shape=d, us=[u], vs=[v], aslist=False), tags=('zero-weight',)))
     return out
 
 
@@ -418,6 +437,8 @@ def _basis_poly_ders(kv, p, k, u, order):
 
 def oracle(c):
     from geomdl import operations, evaluators
+    if 'zero-weight' in c.tags:
+        return None        # W(u) = 0: the rational routine raises ZeroDivisionError, ERR on both sides (malformed stream)
     if c.kind == 'bders23':
         from geomdl import helpers
         d = c.data
